@@ -6,7 +6,7 @@
 (* what failed.  An observation o has one field per accessor, each         *)
 (* [ok |-> value] or [exc |-> "Type"]; text = Seq(Nat); option = 0/1-tuple.*)
 (***************************************************************************)
-EXTENDS Rfc3986, ContractQuoting
+EXTENDS Rfc3986, ContractQuoting, Host
 
 Ok(f)  == "ok" \in DOMAIN f
 V(f)   == f.ok
@@ -603,4 +603,52 @@ C13_WithSuffix(args, S, outs) ==
      /\ Ok(O.raw_parts) /\ Len(V(O.raw_parts)) = Len(V(S.raw_parts)) /\ Front(V(O.raw_parts)) = Front(V(S.raw_parts))
      /\ Ok(O.raw_name) /\ Ok(S.raw_name) /\ Ok(S.raw_suffix)
      /\ StartsWith(V(O.raw_name), Stem(V(S.raw_name), V(S.raw_suffix)))
+
+\* ======================================================================== C16
+HostAddrPart(h) == IF Has(h, COLON) THEN ZoneSplit(h)[1] ELSE h
+C16_LowerAscii(o) ==
+  (Ok(o.raw_host) /\ V(o.raw_host) # None) =>
+     LET h == V(o.raw_host)[1] IN IsAscii(h) /\ LowerS(HostAddrPart(h)) = HostAddrPart(h)
+C16_Ipv6Canonical(o) ==
+  (Ok(o.raw_host) /\ V(o.raw_host) # None /\ Has(V(o.raw_host)[1], COLON)) =>
+     LET h == V(o.raw_host)[1] IN
+     /\ CanonIPv6Host(h) = h
+     /\ Ok(o.host_subcomponent) /\ V(o.host_subcomponent) = Some(<<LBR>> \o h \o <<RBR>>)
+     /\ (Ok(o.host_port_subcomponent) => StartsWith(V(o.host_port_subcomponent)[1], <<LBR>> \o h \o <<RBR>>))
+     /\ (Ok(o.str) => \E i \in 1..Len(V(o.str)) : StartsWith(From(V(o.str), i), <<LBR>> \o h \o <<RBR>>))
+\* what a supplied host text must be stored as (None: this clause does not determine it)
+C16_ExpectedHost(v) ==
+  IF Has(v, COLON) /\ CanonIPv6Host(v) # <<>> THEN Some(CanonIPv6Host(v))
+  ELSE IF IsIPv4(v) THEN Some(v)
+  ELSE IF IsAscii(v) /\ v # <<>> /\ AllLegalFrom(Unreserved \cup SubDelims, v, 1) /\ ~(Last(v) \in Digit /\ Has(v, PCT)) THEN Some(LowerS(v))
+  ELSE None
+\* hosts build()/with_host() must refuse: ASCII text with a character outside the reg-name grammar, not an IP literal
+C16_MustReject(v) ==
+  /\ IsAscii(v) /\ v # <<>>
+  /\ ~AllLegalFrom(Unreserved \cup SubDelims, v, 1)
+  /\ ~(Has(v, COLON) /\ CanonIPv6Host(v) # <<>>) /\ ~IsIPv4(HostAddrPart(v)) /\ ~IsIPv4(ZoneSplit(v)[1])
+C16_HostArg(v, out) ==
+  /\ (C16_ExpectedHost(v) # None) => (Ok(out) /\ Ok(out.ok.raw_host) /\ V(out.ok.raw_host) = C16_ExpectedHost(v))
+  /\ C16_MustReject(v) => IsValueError(out)
+  \* whatever was accepted is stored as a reg-name / IP literal (also after IDNA mapping)
+  /\ (Ok(out) /\ Ok(out.ok.raw_host) /\ V(out.ok.raw_host) # None /\ ~Has(V(out.ok.raw_host)[1], COLON)
+      /\ ~IsIPv4(ZoneSplit(V(out.ok.raw_host)[1])[1])) =>          \* an IPv4 literal with a zone id: unspecified
+        AllLegalFrom(Unreserved \cup SubDelims, V(out.ok.raw_host)[1], 1)
+\* the constructor: a bracketed valid IPv6 literal is compressed
+C16_CtorHost(s, out) ==
+  \E gray \in BOOLEAN :
+    LET a == AppendixBWith(StripWhatwg(s), gray) sa == SplitAuthority(a.authority) IN
+    (a.authority # <<>> /\ sa.bracketed /\ ~sa.oddBrackets /\ CanonIPv6Host(sa.host) # <<>>
+       /\ (sa.port = <<>> \/ (AllDigits(sa.port) /\ Len(sa.port) <= 5 /\ DigitsVal(sa.port) <= 65535))) =>
+       (Ok(out) /\ Ok(out.ok.raw_host) /\ V(out.ok.raw_host) = Some(CanonIPv6Host(sa.host)))
+\* NFKC screen
+C16_Nfkc(s, nfkcDelims, out) ==
+  LET a == AppendixBWith(StripWhatwg(s), TRUE) IN HasAny(a.authority, nfkcDelims) => IsValueError(out)
+\* idempotence / decode-re-encode: with_host(own raw_host) and with_host(own host) give the same raw host
+\* (the constructor does not validate hosts; the clause speaks of syntactically valid stored hosts)
+ValidStoredHost(h) == \/ (Has(h, COLON) /\ CanonIPv6Host(h) # <<>>) \/ IsIPv4(h)
+                      \/ (~Has(h, COLON) /\ AllLegalFrom(Unreserved \cup SubDelims, h, 1))
+C16_SelfHost(S, out) ==
+  (Ok(S.raw_host) /\ V(S.raw_host) # None /\ V(S.raw_host)[1] # <<>> /\ ValidStoredHost(V(S.raw_host)[1])) =>
+     (Ok(out) /\ Ok(out.ok.raw_host) /\ V(out.ok.raw_host) = V(S.raw_host))
 =============================================================================
